@@ -306,7 +306,19 @@ class Worker:
 
         if sys.platform != 'win32':
             try:
-                self.outq.put((DEATH, (pid, exitcode)))
+                # The parent answers DEATH with a termination signal.  When
+                # we are exiting because of such a signal its handler has
+                # already been reset to SIG_DFL, so hold signals back while
+                # we own the result queue's write lock: dying inside put()
+                # would block every other worker on that lock for good.
+                mask = getattr(signal, 'pthread_sigmask', None)
+                blocked = mask and mask(signal.SIG_BLOCK,
+                                        signal.valid_signals())
+                try:
+                    self.outq.put((DEATH, (pid, exitcode)))
+                finally:
+                    if mask:
+                        mask(signal.SIG_SETMASK, blocked)
                 time.sleep(1)
             finally:
                 os._exit(exitcode)
